@@ -35,13 +35,15 @@ Proof.
   intros T t H. unfold total_okb in H.
   destruct (find_tm T t) as [m|] eqn:Hm; [|discriminate].
   destruct (find_ct T (t_ver t) (tm_cname m)) as [c|] eqn:Hc; [|discriminate].
-  apply N.eqb_eq in H. exists m, c. auto.
+  exists m, c. repeat split; auto.
+  destruct (tm_ge m); [now apply N.leb_le | now apply N.eqb_eq].
 Qed.
 
 Lemma mapping_usedb_sound : forall T m, mapping_usedb T m = true -> mapping_used T m.
 Proof.
   intros T m H. unfold mapping_usedb in H. apply existsb_exists in H as [g [Hin H]].
-  apply andb_true_iff in H as [H H3]. apply andb_true_iff in H as [H1 H2].
+  destruct (N.eqb (g_ver g) (m_ver m)) eqn:H1; [|discriminate].
+  destruct (String.eqb (g_struct g) (m_gstruct m)) eqn:H2; [|discriminate].
   exists g. repeat split; auto.
   - now apply N.eqb_eq.
   - now apply String.eqb_eq.
@@ -64,7 +66,7 @@ Example ex_tables : tables := Tables
   [CRow 4 "s" "a" 0 32; CRow 4 "s" "b" 32 16]
   [GRow 4 "G" "A" 0 8; GRow 4 "G" "B" 32 16]
   [MRow 4 "G" "A" "s" ["a"] Prefix; MRow 4 "G" "B" "s" ["b"] Exact]
-  [TRow 4 "s" 8] [TRow 4 "len(G)" 8] [TMRow 4 "len(G)" "s"].
+  [TRow 4 "s" 8] [TRow 4 "len(G)" 8] [TMRow 4 "len(G)" "s" false].
 Example ex_ok : forallb (offset_okb ex_tables) (T_g ex_tables) = true
              /\ forallb (size_okb ex_tables) (T_g ex_tables) = true
              /\ forallb (total_okb ex_tables) (T_gtot ex_tables) = true.
@@ -95,7 +97,8 @@ Qed.
 
 Lemma total_okb_complete : forall T t, total_agrees T t -> total_okb T t = true.
 Proof.
-  intros T t (m & c & Hm & Hc & He). unfold total_okb. rewrite Hm, Hc. now apply N.eqb_eq.
+  intros T t (m & c & Hm & Hc & He). unfold total_okb. rewrite Hm, Hc.
+  destruct (tm_ge m); [now apply N.leb_le | now apply N.eqb_eq].
 Qed.
 
 Lemma field_refuted : forall T g, offset_okb T g && size_okb T g = false ->
